@@ -266,6 +266,10 @@ CheckRun(r) ==
     \* ---------------------------------------------------------------- C20
     \cup WellFormed(r)
     \cup Flag(Cardinality(obsSet) # Cardinality(RowIdx(r)), "C20:row_printed_twice")
+    \* C15: duplicate thread counts collapse (after 0 became the available parallelism)
+    \cup Flag(\E i, j \in RowIdx(r) : i # j /\ keyOf(i) = keyOf(j) /\ Len(obs[i]) >= 1 /\
+                 LET nm == obs[i][Len(obs[i])] IN Len(nm) >= 3 /\ nm[1] = 116 /\ nm[2] = 61,
+              "C15:thread_count_branch_repeated")
     \* ------------------------------------------------- C13 (and C20, C12)
     \cup Flag(obsSet \ expPaths # {}, "C13:unselected_or_unknown_node_shown")
     \cup Flag(expPaths \ obsSet # {}, "C13:selected_node_missing")
